@@ -331,7 +331,13 @@ class Engine:
         self.expfn = z3.Function('E', z3.RealSort(), z3.RealSort())
         self.exp_apps = {}
         self.uid = 0
-        self.overrides = dict(self.opts.get('overrides', {}))
+        self.overrides = {}
+        for key, target in dict(self.opts.get('overrides', {})).items():
+            hits = [f for f in mod.funcs if key == f] or [f for f in mod.funcs if re.search(key, f)]
+            if not hits:
+                raise UnsupportedIR('override %r matches no function of the unit' % key)
+            for h in hits:
+                self.overrides[h] = target
         self.trace_calls = self.opts.get('trace_calls', False)
         self.stop_on_violation = self.opts.get('stop_on_violation', False)
         self.known_excl = self.opts.get('exclude', [])
